@@ -17,6 +17,22 @@ CHECKS = {
     ),
 }
 
+SR_TECH = "symbolic execution of the real code on z3 real terms inside numpy object arrays (decision-prefix path exploration) + z3 QF_NRA unsat queries per path; counterexamples replayed natively before reporting"
+CHECKS.update({
+    "C02": ("SR", SR_TECH,
+            "Bounded solver-checked: for every real value of every numeric cell, each column of model_matrix(...) equals literal scale x product of the pieces its label names (independent label parser), and with ensure_full_rank=False the label list is the complete Kronecker product in term order; configurations (term families <=3 terms x <=3 factors, intercept, rank mode, pandas/numpy output) enumerated.",
+            "Reals not floats; numeric columns enter through `context` as object arrays (ndarray branch of the encoders; replays use DataFrame columns); sparse output outside; treatment coding only; 7-row crossed layout with A:3 and B:2 levels.",
+            "DESIGN.md §3 C02"),
+    "C12": ("SR", SR_TECH + "; independent references: Cox-de Boor over z3 terms, cardinal interpolating splines solved in exact rationals",
+            "Bounded solver-checked: for every real x (one row), on every path through the real basis_spline / cubic_spline, each column equals the independent reference, is non-negative and sums to one inside the bounds, and out-of-range values follow the selected extrapolation mode; degrees 0..3 (0..5 thorough), knot menus incl. ties, df-derived knots from concrete training vectors, centering constraint.",
+            "Concrete knot menus and bounds; F matrices computed in float64 by the real code enter as exact rationals, comparison tolerance 1e-9; cyclic x restricted to [lb-2P, ub+2P], natural to [lb-100, ub+100].",
+            "DESIGN.md §3 C12"),
+    "C16": ("SR", SR_TECH + "; every numeric literal is a distinct symbolic real (ast.literal_eval rebound inside utils/constraints.py)",
+            "Bounded solver-checked: for all literal values and all x, the (A, b) returned by LinearConstraints.from_spec satisfies A.x - b == lhs(x) - rhs(x) as read by an independent evaluator, rows in written order, for every expression tree of depth <=2 over {a, b, literal} in two renderings, '=' and ',' combinations and the three specification forms; anything else must be rejected.",
+            "Depth <= 2 trees, 2 column names, <= 3 constraints; written divisors assumed non-zero; stubs: ast.literal_eval placeholders, numpy.zeros/eye/array -> object dtype.",
+            "DESIGN.md §3 C16"),
+})
+
 NOT_APPLICABLE = {
     "C08": "Kind inference lives inside pandas/narwhals dtype machinery (compiled; dtype lattice): no value reaching it can be symbolic, what remains is enumeration of concrete dtypes, which is another technique (DESIGN.md §3 C08).",
 }
